@@ -12,6 +12,7 @@ import (
 	"os/exec"
 	"path/filepath"
 	"strings"
+	"syscall"
 	"time"
 )
 
@@ -77,7 +78,7 @@ func TestVerifReplay(t *testing.T) {
 	repl[filepath.Join(repoDir, spec.Dir, "zz_verif_replay_test.go")] = tpath
 	ob, _ := json.MarshalIndent(map[string]interface{}{"Replace": repl}, "", " ")
 	os.WriteFile(filepath.Join(dir, "overlay.json"), ob, 0o644)
-	script := fmt.Sprintf("#!/bin/sh\n# replays the counterexample natively against %s\ncd %s && VERIF_CEX=%s GOFLAGS=-mod=mod GOPROXY=off GOSUMDB=off GOTOOLCHAIN=local go test -vet=off -count=1 -run TestVerifReplay -overlay %s .\n",
+	script := fmt.Sprintf("#!/bin/sh\n# replays the counterexample natively against %s\ncd %s && VERIF_CEX=%s GOFLAGS=-mod=mod GOPROXY=off GOSUMDB=off GOTOOLCHAIN=local go test -vet=off -count=1 -timeout 120s -run TestVerifReplay -overlay %s .\n",
 		repoDir, filepath.Join(repoDir, spec.Dir), filepath.Join(dir, "cex.json"), filepath.Join(dir, "overlay.json"))
 	os.WriteFile(filepath.Join(dir, "replay.sh"), []byte(script), 0o755)
 	if interpOnlyLabels[v.Label] {
@@ -108,6 +109,9 @@ func runReplay(dir string) (status, output string) {
 	defer cancel()
 	cmd := exec.CommandContext(ctx, "/bin/sh", filepath.Join(dir, "replay.sh"))
 	cmd.Env = os.Environ()
+	cmd.SysProcAttr = &syscall.SysProcAttr{Setpgid: true}
+	cmd.Cancel = func() error { return syscall.Kill(-cmd.Process.Pid, syscall.SIGKILL) }
+	cmd.WaitDelay = 2 * time.Second
 	out, err := cmd.CombinedOutput()
 	output = string(out)
 	b, _ := os.ReadFile(filepath.Join(dir, "cex.json"))
